@@ -7,13 +7,15 @@ What is proved: every panic-capable expression of Task's own code on the load / 
 list / compile / resolve path — the table `Gen.PanicSites`, regenerated from the current
 source with type information on every run — is discharged by a recorded reason, and the
 two non-obvious reasons (yaml mapping children come in pairs; the snippet bounds) are
-lemmas.  A new unchecked index, slice, type assertion, Must* call or panic breaks
-`all_panic_sites_discharged`.  Termination: the models of load/merge (`TaskModel.Load`,
+lemmas.  A new unchecked index, slice, type assertion, Must* call, panic, or a loop that reads a field
+through the element of a list of pointers without a nil guard (a null YAML list entry is a nil element) breaks
+`all_panic_sites_discharged`; `compiled_lists_nil_free` pins which lists of the compiled task cannot hold one.  Termination: the models of load/merge (`TaskModel.Load`,
 C08/C09) and of the executor (`Props.C07.C07_terminates_all`) are total functions /
 bounded.  What is not proved: yaml.v3, chroma, go-task/template and mvdan/sh themselves
 never panic ("every byte sequence" reaches Task only through them).  Tie: correspondence
 domain `decode` feeds node-shape-grammar documents, mutated real Taskfiles and unusual
-line terminators to Setup / ListTasks / FastCompiledTask / GetTask under `recover()` and
+line terminators to Setup / ListTasks / FastCompiledTask / GetTask and — for the grammar's documents —
+Run --dry, Run --dry --force --yes, Run --summary and Status of every task, under `recover()` and
 a wall-clock bound; any panic or time-out is a violation with the document as replay.
 -/
 namespace Props.C16
@@ -21,6 +23,20 @@ open TaskModel.Decode
 
 /-- **Every panic-capable site is accounted for.** -/
 theorem all_panic_sites_discharged : TaskModel.Gen.PanicSites.sites.all isDischarged = true := by decide
+
+/-- **The lists of the compiled task hold no nil element**, except the reviewed pass-through fields: every list-of-
+pointers field `compiledTask` fills is filtered (nil entries skipped) or produced by `ReplaceGlobs`; `Platforms` is
+handed over as it is and every loop over it guards (no `nilelem` site remains for it in `Gen.PanicSites`). -/
+theorem compiled_lists_nil_free : compiledListsOk TaskModel.Gen.PanicSites.compiledLists = true := by decide
+
+/-- the five list fields are all there (the fact is about the real function) -/
+theorem compiled_lists_present :
+    ["Cmds", "Deps", "Preconditions", "Sources", "Generates", "Platforms"].all
+      (fun f => TaskModel.Gen.PanicSites.compiledLists.any (fun r => r.1 == f)) = true := by decide
+
+/-- non-vacuity: a field passed through that is not reviewed, or a filtered field that loses its filter, is rejected -/
+example : compiledListsOk [("Cmds", "pass")] = false ∧ compiledListsOk [("Deps", "call:append"), ("Deps", "call:make")] = false ∧
+    compiledListsOk [("Platforms", "pass"), ("Cmds", "call:append"), ("Cmds", "filtered-nil")] = true := by decide
 
 /-- the table is the real one, not an empty list -/
 theorem sites_nonempty : TaskModel.Gen.PanicSites.sites.length ≥ 40 := by decide
